@@ -440,9 +440,9 @@ func ruleIngest(c *Ctx) {
 	n := 0
 	bad := []string{}
 	kinds := map[string]bool{}
-	c.P.Simulate(fn, SimConfig{Inline: func(cal *ssa.Function, d int) bool {
+	c.P.Simulate(fn, SimConfig{Inline: orHelpers(fn, func(cal *ssa.Function, d int) bool {
 		return inPkg(cal, "cache") && cal.Name() == "cloneHeaderAndIgnore" && d < 1
-	}}, func(pr *PathResult) {
+	})}, func(pr *PathResult) {
 		n++
 		where := "path [" + condString(pr.Conds) + "]"
 		if len(pr.Results) != 2 {
